@@ -7,11 +7,40 @@ access and whether the assigned expression is known to be quadratic, and constra
 namespace Circomspect.SignalAssign
 
 abbrev Loc := Nat × Nat
-abbrev Key := String          -- the assigned signal together with its access (canonical text)
+
+/-- one step of an access: a component port, or an array index with the value constant propagation knows for it (canonical text) -/
+inductive Acc
+  | port (name : String)
+  | idx (value : Option String)
+  deriving Repr, DecidableEq
+
+/-- a signal use: `id` identifies the signal together with its exact access (canonical text: the `Assignment` records are
+    compared with it), `name` and `acc` are what the comparison of accesses looks at -/
+structure Key where
+  id : String
+  name : String
+  acc : List Acc
+  deriving Repr, DecidableEq
+
+def accAlias : Acc → Acc → Bool
+  | .port a, .port b => a == b
+  | .idx (some a), .idx (some b) => a == b
+  | .idx _, .idx _ => true
+  | _, _ => false
+
+/-- `may_alias` (since the `fix:` 8573db1): the two accesses may denote the same signal, or one a part of the other — equal port
+    names, indices identified unless both are known and different, the shorter access a prefix of the longer -/
+def mayAlias : List Acc → List Acc → Bool
+  | a :: as, b :: bs => accAlias a b && mayAlias as bs
+  | _, _ => true
+
+/-- a use `r` mentions the signal `k` -/
+def mentions (r k : Key) : Bool := r.name == k.name && mayAlias r.acc k.acc
 
 inductive Stmt
   | assign (loc : Loc) (key : Key) (quadratic : Bool)     -- `Substitution { op: AssignSignal, .. }`
-  | constraint (loc : Loc) (reads : List Key)             -- `ConstraintEquality` / `AssignConstraintSignal`
+  | constraint (loc : Loc) (reads : List Key) (target : Option Key)
+      -- `ConstraintEquality` (no target) / `AssignConstraintSignal` (the assigned signal or component input)
   | other
   deriving Repr, DecidableEq
 
@@ -27,12 +56,13 @@ inductive Report
 def assignments (ss : List Stmt) : List (Loc × Key × Bool) :=
   (ss.filterMap (fun s => match s with | .assign l k q => some (l, k, q) | _ => none)).eraseDups
 
+/-- the `Constraint` records: location and the uses looked at (the reads, and the target of a `<==`) -/
 def constraints (ss : List Stmt) : List (Loc × List Key) :=
-  (ss.filterMap (fun s => match s with | .constraint l r => some (l, r) | _ => none)).eraseDups
+  (ss.filterMap (fun s => match s with | .constraint l r t => some (l, r ++ t.toList) | _ => none)).eraseDups
 
 /-- `get_constraint_metas` -/
 def constraintLocs (ss : List Stmt) (k : Key) : List Loc :=
-  ((constraints ss).filter (fun c => c.2.contains k)).map (·.1)
+  ((constraints ss).filter (fun c => c.2.any (fun r => mentions r k))).map (·.1)
 
 /-- `find_signal_assignments` -/
 def findSignalAssignments (kind : Kind) (ss : List Stmt) : List Report :=
